@@ -179,6 +179,10 @@ func (vc *VC) rangeNext(fr *Frame, st *State, x *ssa.Next) {
 	dom, val := vc.mapAcc(m, "dom", mv), vc.mapAcc(m, "val", mv)
 	ok := vc.declFresh(x.Name()+"!ok", sortBool)
 	k := vc.declFresh(x.Name()+"!k", vc.sortOf(m.Key()))
+	if fk, forced := vc.forcedKey[it.S]; forced {
+		// hypothetical iteration of a commute obligation: this step yields the given key
+		ok, k = tTrue, fk
+	}
 	// ok => k in dom and not visited;  !ok => every key of dom is visited
 	inDom := tSelect(dom, k)
 	inDom.T = sortBool
